@@ -217,5 +217,6 @@ pub fn check() -> Check {
         required: &["probe_rounds_checked", "windows_checked"],
         workloads: vec![Workload { name: "rr", f: rr_case, quick: 12_000, thorough: 400_000, flav: Flav::Checked }],
         exhaustive: false,
+        aggregate: None,
     }
 }
